@@ -40,10 +40,32 @@ Theorem C05_channels_independent : forall s c f c', c' <> c ->
 Proof. exact on_frame_other. Qed.
 Print Assumptions C05_channels_independent.
 
-(* Known finding: a call aborted, after its request was written, by an error arriving while it waits leaves its reply outstanding; the next call of that kind gets it. *)
-Theorem C05_aborted_refuted : exists i, c05_ok i (chan_model i) = false.
-Proof. exists ((1%nat, [{| st_chan := 1%nat; st_op := (ARpc 0%nat); st_script := [[(1%nat, {| f_name := NReturn; f_num := (312)%Z; f_str := ([]%N) |}); (1%nat, {| f_name := NHeader; f_num := (0)%Z; f_str := ([]%N) |})]; [(1%nat, {| f_name := NDeclareOk; f_num := (1)%Z; f_str := ([]%N) |})]] |}; {| st_chan := 1%nat; st_op := (ARpc 0%nat); st_script := [[(1%nat, {| f_name := NDeclareOk; f_num := (2)%Z; f_str := ([]%N) |})]] |}])). vm_compute. reflexivity. Qed.
-Print Assumptions C05_aborted_refuted.
+(* A message returned while a call waits neither answers nor cancels the call: the poll that
+   meets the queued error holds it back and goes on waiting ... *)
+Theorem C05_return_does_not_abort_the_wait : forall tick sc s c v u held s1 v1 e,
+  (forall l, resp_get (c_resp (cur s c v)) u = Some l -> l = []) ->
+  chan_check s c (cur s c v) = (s1, v1, Raise e) -> e_kind e = EMsg ->
+  wait_rpc (tick :: sc) s c v u false held = wait_rpc sc (deliver_all s1 tick) c v1 u false (held ++ [e]).
+Proof. exact wait_rpc_holds_return. Qed.
+Print Assumptions C05_return_does_not_abort_the_wait.
+
+(* ... and once the call's own reply is in, the first error held back is raised, the request is
+   forgotten (no reply of it can be outstanding, so none can reach a later call - this was the
+   finding rpc-aborted+late-reply, see KNOWN_FINDINGS.txt) and the others are back at the head
+   of the queue *)
+Theorem C05_reply_consumed_then_return_raised : forall sc s c v0 v u f l h more,
+  get_chan (s_chans s) c = Some v -> resp_get (c_resp v) u = Some (f :: l) ->
+  exists s' v', wait_rpc sc s c v0 u false (h :: more) = (s', v', Raise h, sc) /\
+                get_chan (s_chans s') c = Some v' /\
+                c_errs v' = more ++ c_errs v /\
+                c_req v' = req_del_uuid (c_req v) u /\ c_resp v' = resp_del (c_resp v) u /\
+                s_out s' = s_out s.
+Proof. exact wait_rpc_reply_then_return. Qed.
+Print Assumptions C05_reply_consumed_then_return_raised.
+
+(* the history that used to fail *)
+Example C05_aborted_history : let i := ((1%nat, [{| st_chan := 1%nat; st_op := (ARpc 0%nat); st_script := [[(1%nat, {| f_name := NReturn; f_num := (312)%Z; f_str := ([]%N) |}); (1%nat, {| f_name := NHeader; f_num := (0)%Z; f_str := ([]%N) |})]; [(1%nat, {| f_name := NDeclareOk; f_num := (1)%Z; f_str := ([]%N) |})]] |}; {| st_chan := 1%nat; st_op := (ARpc 0%nat); st_script := [[(1%nat, {| f_name := NDeclareOk; f_num := (2)%Z; f_str := ([]%N) |})]] |}])) in c05_ok i (chan_model i) = true.
+Proof. vm_compute. reflexivity. Qed.
 
 (* The content of a returned message (its header and body frames, which follow the Basic.Return
    on the wire) is queued for the consumer whoever is waiting for content frames at that moment -
